@@ -56,6 +56,47 @@ type seqState struct {
 	provs map[string]graph.Provider
 	ptags map[string]int
 	nreg  int
+	// cur: the provider value each node of the graph currently holds
+	cur map[int]graph.Provider
+	// a BYSTANDER graph: built once, in the middle of the sequence, from the very provider values
+	// the main graph holds (two Builds of one collection hand the same descriptors to two
+	// graphs), and never touched again: its answers stay those of its own reference, whatever
+	// happens to the main graph
+	by    *graph.DependencyGraph
+	byRef *Ref
+}
+
+// startBystander builds the bystander from the main graph's current provider values.
+func (s *seqState) startBystander() {
+	if s.by != nil || s.pending || s.r.Cyclic() || len(s.r.nodes) == 0 {
+		return
+	}
+	g := graph.NewDependencyGraph()
+	for _, n := range s.r.Nodes() {
+		p, ok := s.cur[n]
+		if !ok {
+			return
+		}
+		if err := g.AddProviderDeferred(p); err != nil {
+			return
+		}
+	}
+	if g.DetectCycles() != nil {
+		return
+	}
+	if Compare(g, s.r, s.u) != "" {
+		return // the main sequence reports what is wrong with such a graph
+	}
+	s.by, s.byRef = g, s.r.Clone()
+	s.stats["bystander_graphs"]++
+}
+
+func (s *seqState) checkBystander() string {
+	if s.by == nil {
+		return ""
+	}
+	s.stats["bystander_comparisons"]++
+	return Compare(s.by, s.byRef, s.u)
 }
 
 // provider returns the provider value (and its tag) for this registration.
@@ -75,6 +116,13 @@ func (s *seqState) provider(o Op) (graph.Provider, int) {
 	return p, s.tag
 }
 
+func (s *seqState) setCur(n int, p graph.Provider) {
+	if s.cur == nil {
+		s.cur = map[int]graph.Provider{}
+	}
+	s.cur[n] = p
+}
+
 func newSeqState(u []Ident) *seqState {
 	return &seqState{g: graph.NewDependencyGraph(), r: NewRef(), u: u, stats: map[string]int64{}}
 }
@@ -85,12 +133,14 @@ func (s *seqState) apply(o Op) (clause, msg string) {
 	case "clear":
 		s.g.Clear()
 		s.r.Clear()
+		s.cur = nil
 		s.pending = false
 		s.stats["clear"]++
 	case "remove":
 		id := s.u[o.Self]
 		s.g.RemoveProvider(id.Type, id.Key, id.Group)
 		s.r.Remove(o.Self)
+		delete(s.cur, o.Self)
 		s.stats["remove"]++
 		if s.pending {
 			s.stats["remove_while_deferred_pending"]++
@@ -101,6 +151,7 @@ func (s *seqState) apply(o Op) (clause, msg string) {
 			return "defer-error", "AddProviderDeferred failed: " + err.Error()
 		}
 		s.r.Add(o.Self, o.Deps, tag)
+		s.setCur(o.Self, prov)
 		s.pending = true
 		s.stats["defer_pending"]++
 	case "detect":
@@ -146,6 +197,7 @@ func (s *seqState) apply(o Op) (clause, msg string) {
 			return "add-rejects-acyclic", "AddProvider rejected an acyclic addition: " + err.Error()
 		}
 		s.r = trial
+		s.setCur(o.Self, prov)
 		if replacing && s.r.nodes[o.Self] {
 			s.stats["replace"]++
 		}
@@ -156,6 +208,7 @@ func (s *seqState) apply(o Op) (clause, msg string) {
 			return "defer-error", "AddProviderDeferred failed: " + err.Error()
 		}
 		s.r.Add(o.Self, o.Deps, tag)
+		s.setCur(o.Self, prov)
 		err := s.g.DetectCycles() // the documented completion of deferred adds
 		if (err != nil) != s.r.Cyclic() {
 			return "detect-cycles", fmt.Sprintf("DetectCycles()=%v, reference cyclic=%v", err, s.r.Cyclic())
@@ -234,6 +287,14 @@ func runSeq(c *eng.Ctx, u []Ident, ops []Op, caseIdx int, stats map[string]int64
 		clause, msg := s.apply(o)
 		if s.r.String(u) != before {
 			mutated = true
+		}
+		if clause == "" {
+			if m := s.checkBystander(); m != "" {
+				clause, msg = "bystander-graph-changed", "a second graph that was given the same provider values and has not been touched since answers differently after this step on the FIRST graph: "+m
+			}
+			if i == len(ops)/3 {
+				s.startBystander()
+			}
 		}
 		if clause != "" {
 			c.R.Violation(eng.Violation{Prop: "C19", Clause: clause, Sig: c19Sig(clause, ops, i), Case: caseIdx, CaseID: fmt.Sprintf("seq-%d", caseIdx),
